@@ -832,6 +832,10 @@ class TrialDataManager(object):
         if self._index_field_name is not None:
             logger.debug(
                 f'Sorting events in index field "{self._index_field_name}"')
+            # The sorting is done in place. Hence, sort a copy in case no events
+            # got rejected and the events are still the ones of the caller.
+            if self._events is events:
+                self._events = events.copy()
             sorted_idxs = self._events.sort_by_field(self._index_field_name)
             # If event indices are stored, we need to re-assign also those event
             # indices according to the new order.
